@@ -2,6 +2,15 @@
 "wire program" abstraction of `_convert_to_encoding` / `_convert_from_encoding`.
 
 Everything works on `ast` trees of hail/python/hail/expr/types.py and friends; nothing is imported or run.
+
+Further down (added for the strengthened rules):
+  * TypeTables / Guard        - which HailType classes a test on a type object admits (is_numeric(t), isinstance, `t in _numeric_types`, ...),
+                                evaluated from the module's own class-set tables; dead guards carry the reason
+  * codec_state               - purity / memo-key analysis of converter methods (state that outlives a call, key atoms vs value atoms)
+  * inline_stream_helpers     - converters analysed with the helpers that receive the byte stream inlined (engines/inline.py does the rewriting)
+  * MissingBitsEval / check_missing_region  - own interpreter for the statements that pack missing bits, over a symbolic missingness vector
+  * MissingBitsReadEval / check_missing_reader - the same for decoders: symbolic missing bytes, which symbol guards the k-th delegated decode
+  * type_params_passed        - value-class constructor parameters that are parameters of the Hail type must come from self
 """
 from __future__ import annotations
 
@@ -1058,6 +1067,19 @@ def codec_state(m: pf.Module, classes: Dict[str, ast.ClassDef], is_codec) -> Tup
             findings.append(StateFinding('ok', cons, f'{lt} is written by {where} but never read back by any converter: results do not depend on it', line))
             continue
         scope = ('shared by every instance of the type (and every call)' if shared else 'kept on the type instance')
+        # lazy creation of the container (`if self._c is None: self._c = {}`) is neither a remembered value nor a read of one
+        def _empty(v: Optional[ast.AST]) -> bool:
+            return (isinstance(v, (ast.Dict, ast.List, ast.Set)) and not getattr(v, 'keys', getattr(v, 'elts', None))) or \
+                   (isinstance(v, ast.Call) and pf.dotted(v.func) in ('dict', 'list', 'set', 'collections.OrderedDict', 'OrderedDict') and not v.args and not v.keywords) or \
+                   (isinstance(v, ast.Constant) and v.value is None)
+        ws = [w for w in ws if not (w['form'] in ('attr-assign',) and _empty(w['value']))] or ws
+        def _none_test(r: dict) -> bool:
+            p_ = r['fs'].par.get(r['node'])
+            return isinstance(p_, ast.Compare) and len(p_.ops) == 1 and isinstance(p_.ops[0], (ast.Is, ast.IsNot)) and isinstance(p_.comparators[0], ast.Constant) and p_.comparators[0].value is None
+        vreads = [r for r in vreads if not (r['form'] == 'load' and _none_test(r))]
+        if not vreads:
+            findings.append(StateFinding('ok', cons, f'{lt} is only created / tested for existence by the converters', line))
+            continue
         keyed_w = all(w['form'] in ('setitem',) or w['form'] == 'call:setdefault' or w['form'] in ('delitem',) or (w['form'].startswith('call:') and w['form'][5:] in EVICTORS) for w in ws)
         keyed_r = all(r['form'] in ('get', 'getitem', 'contains') for r in vreads)
         plain_w = all(w['form'] in ('attr-assign',) for w in ws)
@@ -1344,6 +1366,8 @@ class MissingBitsEval:
             vals = [self.ev(x) for x in e.elts]
             return vals if isinstance(e, ast.List) else tuple(vals)
         if isinstance(e, ast.Attribute):
+            if e.attr == '_missing' and isinstance(e.value, ast.Name) and (e.value.id == 'HailType' or (isinstance(self.env.get(e.value.id), _Obj) and self.env[e.value.id].kind == 'self')):
+                return _Obj('missing-predicate')  # the predicate handed around as a value
             base = self.ev(e.value)
             if isinstance(base, _Obj) and base.kind == 'self':
                 if e.attr in ('types', '_types'):
@@ -1491,6 +1515,8 @@ class MissingBitsEval:
     def call(self, e: ast.Call) -> Any:
         f = e.func
         d = pf.dotted(f)
+        if isinstance(f, ast.Name) and isinstance(self.env.get(f.id), _Obj) and self.env[f.id].kind == 'missing-predicate' and len(e.args) == 1 and not e.keywords:
+            return self.missing(e, self.ev(e.args[0]))
         if e.keywords and d not in ('enumerate',):
             self.fail(e, f'keyword arguments in `{pf.nsrc(e)[:60]}`')
         if isinstance(f, ast.Attribute):
@@ -2204,7 +2230,8 @@ def check_missing_reader(m: pf.Module, cls: str, fn: pf.FuncDef, max_n: int = MA
                 continue
             if not guards:
                 return (f'n = {n}: slot {k} is decoded unconditionally (its missing bit is never consulted): when slot {k} is missing the decoder consumes the bytes of the next value'), sources, n_rec
-            desc = ' and '.join(('any of ' if len(s) > 1 else '') + 'slot ' + '/'.join(str(x) for x in sorted(s)) + (' missing' if pol else ' present') for s, pol in guards)
+            desc = ' and '.join((('any of ' if pol else 'all of ') if len(s) > 1 else '') + ('slots ' if len(s) > 1 else 'slot ') + '/'.join(str(x) for x in sorted(s)) + (' missing' if pol else ' present')
+                                for s, pol in guards)
             g0 = guards[0]
             others = sorted(set(g0[0]) - {k})
             if len(guards) == 1 and g0[1] is False and k in g0[0] and others:
